@@ -185,6 +185,9 @@ func checkC14(r *Result) {
 			if cs.Callee == "(x/bridge/keeper.Keeper).ClaimDeposit" {
 				s := tm.Of(Arg(cs.Instr, 3))
 				r.check(s.Has("field:x/bridge/types.MsgClaimDepositsRequest.Creator"), "CLAIM-ROUTING", "(x/bridge/keeper.msgServer).ClaimDeposits # tip recipient is the message creator", P.Pos(cs.Pos()), "argument: "+clip(s.String(), 120))
+				id, ix := tm.Of(Arg(cs.Instr, 1)), tm.Of(Arg(cs.Instr, 2))
+				okRoles := id.Contains("MsgClaimDepositsRequest.DepositIds") && !id.Contains("MsgClaimDepositsRequest.Indices") && ix.Contains("MsgClaimDepositsRequest.Indices") && !ix.Contains("MsgClaimDepositsRequest.DepositIds")
+				r.check(okRoles, "CLAIM-GUARDS", "(x/bridge/keeper.msgServer).ClaimDeposits # the deposit id comes from DepositIds and the report index from Indices", P.Pos(cs.Pos()), "id: "+clip(id.String(), 100)+" ; index: "+clip(ix.String(), 100))
 			}
 		}
 	}
